@@ -59,6 +59,17 @@ Theorem C22_partial_pairs : forall w a b sched w' ts' tr',
 Proof. exact pairs_partial. Qed.
 Print Assumptions C22_partial_pairs.
 
+(* PARTIAL 1b: all TRIPLES of the pod / node operations (add-pod, remove-pod,
+   add-node, remove-node on the worlds {pod} and {pod, node}), every schedule *)
+Theorem C22_partial_triples : forall w a b c sched w' ts' tr',
+  In w t_worlds -> In a t_ops -> In b t_ops -> In c t_ops ->
+  run_sched w (mk_threads [(a, None); (b, None); (c, None)]) sched [] = (w', ts', tr') ->
+  (forallb finished ts' = true \/ enabled_steps w' ts' <> []) /\
+  (forallb finished ts' = true ->
+   ref_ok w' = true \/ window_addnode_removepod tr' = true \/ window_create_removenode tr' = true).
+Proof. exact triples_partial. Qed.
+Print Assumptions C22_partial_triples.
+
 (* PARTIAL 2: every operation run in isolation preserves Ref *)
 Theorem C22_partial_isolation : forall w a sched w' ts' tr',
   In w u_worlds -> In a u_ops ->
